@@ -406,7 +406,7 @@ def e2e(ctx, quick, only=None):
                 return []
         empty = os.path.join(work, "empty-arp-cache")
         open(empty, "w").close()
-        exe = os.path.join(verif.ROOT, "harness", "bin", "c05")
+        exe = os.path.join(verif.HBIN, "c05")
         for k, (name, vpn, args, want, ports) in enumerate(e2e_plan(quick)):
             if only is not None and name != only:
                 continue
